@@ -3,7 +3,7 @@
 Shape B: full products of small option sets executed on the real classes.
   part 'clamp': energy landscapes (H_R, H_TS, H_P) x (S_TS, S_P) with exactly set H and S,
       with / without transition state (explicit or BEP), both directions, ChemkinReaction and
-      SurfaceReaction: get_HoRT_act / get_H_act / get_GoRT_act / get_G_act = max(0, TS - initial,
+      SurfaceReaction (plus the multi-species pool reactions of C08): get_HoRT_act / get_H_act / get_GoRT_act / get_G_act = max(0, TS - initial,
       final - initial).
   part 'bep':   8 descriptors x slope x intercept x reaction body x T x class: barrier identities.
   part 'A':     pre-exponential factors: entropy route, no-TS limit, site-density scaling, operation.
@@ -47,7 +47,7 @@ SLOPES_T = [0.0, 0.15, 0.3, 0.5, 0.75, 1.0]
 INTERCEPTS_T = [0.0, 5.0, 15.0, 30.0, 60.0]
 KB_EV = 8.617333262e-5      # only used to *choose* inputs; the oracle reads values back from the species
 
-PLANNED_TAGS = (['clamp:zero', 'clamp:ts', 'clamp:delta', 'clamp:no-ts', 'clamp:ts-bep', 'clamp:rev',
+PLANNED_TAGS = (['clamp:pool-body', 'clamp:zero', 'clamp:ts', 'clamp:delta', 'clamp:no-ts', 'clamp:ts-bep', 'clamp:rev',
                  'clamp:cls:ChemkinReaction', 'clamp:cls:SurfaceReaction', 'clamp:P-explicit'] +
                 ['bep:' + d for d in DESCRIPTORS] + ['bep:rev', 'bep:exothermic', 'bep:endothermic'] +
                 ['A:n_surf=%d' % n for n in range(4)] + ['A:op:' + o for o in OPS] +
@@ -149,6 +149,17 @@ def _clamp_cases(tier):
             for st in SR:
                 out.append(dict(part='clamp', cls=cls, kind=kind, T=T, P=0.2, H=[hr, ht, hp], S=[0.0, st, 5.0],
                                 ts='explicit', nu=nu, gas=True))
+    # the multi-species reactions of the C08 pool, written in both directions
+    for (body, fam), tsk, T, P, swap in itertools.product(
+            [(b, 'sm') for b in BODIES_SM] + [(b, 'emp') for b in BODIES_EMP],
+            [None, [['TSM', 1.0]], [['TSN', 0.5]], [['BEP', 1.0]], [['TSN', 1.0], ['TS2', 2.0]]],
+            temps, [None, 0.2], (False, True)):
+        rs, ps = (body[1], body[0]) if swap else body
+        for cls in ('ChemkinReaction', 'SurfaceReaction'):
+            if cls == 'ChemkinReaction' and any(k in R.STATMECH_KEYS for k, _ in rs):
+                continue
+            out.append(dict(part='clamp', cls=cls, kind='pool', T=T, P=P, R=rs, P_side=ps, TS=tsk,
+                            ts='none' if tsk is None else ('bep' if tsk[0][0] == 'BEP' else 'explicit')))
     return out
 
 
@@ -172,21 +183,47 @@ def _clamp_build(case):
     return _cls(case['cls'])(**kw), r, t, p
 
 
+def _pool_build(case):
+    objs = {}
+
+    def get(k):
+        if k not in objs:
+            objs[k] = _bep(case['cls'], 0.375, 11.5, 'delta_H') if k == 'BEP' else R.build_species(k)
+        return objs[k]
+    rs = [(get(k), nu) for k, nu in case['R']]
+    ps = [(get(k), nu) for k, nu in case['P_side']]
+    ts = [(get(k), nu) for k, nu in case['TS']] if case['TS'] else None
+    kw = dict(reactants=[s for s, _ in rs], reactants_stoich=[nu for _, nu in rs],
+              products=[s for s, _ in ps], products_stoich=[nu for _, nu in ps])
+    if ts:
+        kw.update(transition_state=[s for s, _ in ts], transition_state_stoich=[nu for _, nu in ts])
+    return _cls(case['cls'])(**kw), rs, ts, ps
+
+
 def _check_clamp(case, ctx):
     from pmutt import constants as c
-    rxn, r, t, p = _clamp_build(case)
-    ctx.trace()
-    T, nu = case['T'], case['nu']
+    T = case['T']
     kw = {'T': T}
     if case['P'] is not None:
         kw['P'] = case['P']
         ctx.tag('clamp:P-explicit')
+    if case['kind'] == 'pool':
+        rxn, rs, ts, ps = _pool_build(case)
+        ctx.tag('clamp:pool-body')
+    else:
+        rxn, r, t, p = _clamp_build(case)
+        nu = case['nu']
+        rs, ps, ts = [(r, nu[0])], [(p, nu[2])], (None if t is None else [(t, nu[1])])
+    ctx.trace()
     ctx.tag('clamp:cls:' + case['cls'])
     for quant, short in (('HoRT', 'H'), ('GoRT', 'G')):
-        xr = nu[0] * R.species_value(r, quant, kw)
-        xp = nu[2] * R.species_value(p, quant, kw)
-        xt = None if t is None else nu[1] * R.species_value(t, quant, kw, reaction=rxn)
-        mag = abs(xr) + abs(xp) + (abs(xt) if xt is not None else 0.0) + 1.0
+        def tot(side):
+            t_ = [(n, R.species_value(sp, quant, kw, reaction=rxn)) for sp, n in side]
+            return R.combine(t_, quant), R.magnitude(t_)
+        xr, mr = tot(rs)
+        xp, mp = tot(ps)
+        xt, mt = tot(ts) if ts else (None, 0.0)
+        mag = mr + mp + mt + 1.0
         for rev in (False, True):
             ini, fin = (xp, xr) if rev else (xr, xp)
             cands = [('zero', 0.0), ('delta', fin - ini)]
